@@ -281,6 +281,161 @@ impl UserCase for GenericHolder {
     }
 }
 
+impl UserCase for RenamedShapes {
+    const NAME: &'static str = "RenamedShapes";
+    const HAS_ID: bool = true;
+    fn grid(b: usize) -> Vec<Self> {
+        field_product!(b; scalar: u64, float: f64, string: String, vec: Vec<i64>, opt: Option<u64>, opt_string: Option<String>, opt_vec: Option<Vec<i64>>, custom: Attribute, status: Status, vec_custom: Vec<Status>, opt_custom: Option<Attribute>;
+            RenamedShapes { db_id: None, scalar, float, string, vec, opt, opt_string, opt_vec, custom, status, vec_custom, opt_custom })
+    }
+    fn with_id(&self, id: DbId) -> Self {
+        RenamedShapes { db_id: Some(id), ..self.clone() }
+    }
+    fn same(&self, o: &Self) -> bool {
+        same_fields!(self, o; db_id, scalar, float, string, vec, opt, opt_string, opt_vec, custom, status, vec_custom, opt_custom)
+    }
+    fn none_from(&self, old: &Self) -> Self {
+        RenamedShapes {
+            opt: self.opt.or(old.opt),
+            opt_string: self.opt_string.clone().or(old.opt_string.clone()),
+            opt_vec: self.opt_vec.clone().or(old.opt_vec.clone()),
+            opt_custom: self.opt_custom.clone().or(old.opt_custom.clone()),
+            ..self.clone()
+        }
+    }
+}
+
+impl UserCase for RenameSwap {
+    const NAME: &'static str = "RenameSwap";
+    const HAS_ID: bool = true;
+    fn grid(b: usize) -> Vec<Self> {
+        field_product!(b; first: u64, second: Option<u64>, third: Vec<String>, fourth: Option<Vec<String>>; RenameSwap { db_id: DbId(0), first, second, third, fourth })
+    }
+    fn with_id(&self, id: DbId) -> Self {
+        RenameSwap { db_id: id, ..self.clone() }
+    }
+    fn same(&self, o: &Self) -> bool {
+        self == o
+    }
+    fn none_from(&self, old: &Self) -> Self {
+        RenameSwap { second: self.second.or(old.second), fourth: self.fourth.clone().or(old.fourth.clone()), ..self.clone() }
+    }
+}
+
+impl UserCase for SkippedShapes {
+    const NAME: &'static str = "SkippedShapes";
+    const HAS_ID: bool = true;
+    fn grid(b: usize) -> Vec<Self> {
+        field_product!(b; kept: String, scalar: u64, string: String, vec: Vec<i64>, opt: Option<u64>, opt_vec: Option<Vec<i64>>, custom: Attribute, status: Status, vec_custom: Vec<Status>, renamed: i64, kept_opt: Option<i64>;
+            SkippedShapes { db_id: None, kept, scalar, string, vec, opt, opt_vec, custom, status, vec_custom, renamed, kept_opt })
+    }
+    fn with_id(&self, id: DbId) -> Self {
+        SkippedShapes { db_id: Some(QueryId::Id(id)), ..self.clone() }
+    }
+    fn expected(&self, id: DbId) -> Self {
+        SkippedShapes {
+            db_id: Some(QueryId::Id(id)),
+            kept: self.kept.clone(),
+            scalar: 0,
+            string: String::new(),
+            vec: vec![],
+            opt: None,
+            opt_vec: None,
+            custom: Attribute::default(),
+            status: Status::default(),
+            vec_custom: vec![],
+            renamed: 0,
+            kept_opt: self.kept_opt,
+        }
+    }
+    fn same(&self, o: &Self) -> bool {
+        self == o
+    }
+    fn none_from(&self, old: &Self) -> Self {
+        SkippedShapes { kept_opt: self.kept_opt.or(old.kept_opt), ..self.clone() }
+    }
+}
+
+impl Grid for InnerRenamed {
+    fn grid(b: usize) -> Vec<Self> {
+        field_product!(b; n: u64, o: Option<String>, v: Vec<u64>; InnerRenamed { n, o, v })
+    }
+}
+impl Grid for InnerCustom {
+    fn grid(b: usize) -> Vec<Self> {
+        field_product!(b; st: Status, ost: Option<Status>, sts: Vec<Status>, tmp: u64; InnerCustom { st, ost, sts, tmp })
+    }
+}
+impl Grid for InnerLeaf {
+    fn grid(b: usize) -> Vec<Self> {
+        field_product!(b; leaf_name: String, leaf_list: Vec<i64>; InnerLeaf { leaf_name, leaf_list })
+    }
+}
+impl Grid for InnerNest {
+    fn grid(b: usize) -> Vec<Self> {
+        field_product!(b; deep: InnerLeaf, x: i64; InnerNest { deep, x })
+    }
+}
+
+impl UserCase for FlattenShapes {
+    const NAME: &'static str = "FlattenShapes";
+    const HAS_ID: bool = true;
+    fn grid(b: usize) -> Vec<Self> {
+        field_product!(b; own: String, a: InnerRenamed, b_: InnerCustom, c: InnerNest; FlattenShapes { db_id: None, own, a, b: b_, c })
+    }
+    fn with_id(&self, id: DbId) -> Self {
+        FlattenShapes { db_id: Some(id), ..self.clone() }
+    }
+    fn expected(&self, id: DbId) -> Self {
+        let mut e = self.with_id(id);
+        e.b.tmp = 0; // skipped inside the flattened type
+        e
+    }
+    fn same(&self, o: &Self) -> bool {
+        self == o
+    }
+    fn none_from(&self, old: &Self) -> Self {
+        let mut n = self.clone();
+        n.a.o = n.a.o.or(old.a.o.clone());
+        n.b.ost = n.b.ost.or(old.b.ost.clone());
+        n
+    }
+}
+
+impl UserCase for FlattenPlain {
+    const NAME: &'static str = "FlattenPlain";
+    const HAS_ID: bool = true;
+    fn grid(b: usize) -> Vec<Self> {
+        field_product!(b; own: u64, c: InnerNest, p: Plain; FlattenPlain { db_id: None, own, c, p })
+    }
+    fn with_id(&self, id: DbId) -> Self {
+        FlattenPlain { db_id: Some(id), ..self.clone() }
+    }
+    fn same(&self, o: &Self) -> bool {
+        self == o
+    }
+}
+
+impl UserCase for ElemShapes {
+    const NAME: &'static str = "ElemShapes(DbElement)";
+    const HAS_ID: bool = true;
+    fn grid(b: usize) -> Vec<Self> {
+        field_product!(b; name: String, opt: Option<i64>, cache: Vec<u64>, inner: InnerLeaf; ElemShapes { db_id: None, name, opt, cache, inner })
+    }
+    fn with_id(&self, id: DbId) -> Self {
+        ElemShapes { db_id: Some(id), ..self.clone() }
+    }
+    fn expected(&self, id: DbId) -> Self {
+        ElemShapes { db_id: Some(id), cache: vec![], ..self.clone() }
+    }
+    fn same(&self, o: &Self) -> bool {
+        self == o
+    }
+    fn none_from(&self, old: &Self) -> Self {
+        ElemShapes { opt: self.opt.or(old.opt), ..self.clone() }
+    }
+}
+
 // ---------------------------------------------------------------------------
 
 struct Fail {
@@ -453,6 +608,12 @@ fn runners() -> Vec<TypeRunner> {
         runner::<Elem>(),
         runner::<StdTypes>(),
         runner::<GenericHolder>(),
+        runner::<RenamedShapes>(),
+        runner::<RenameSwap>(),
+        runner::<SkippedShapes>(),
+        runner::<FlattenShapes>(),
+        runner::<FlattenPlain>(),
+        runner::<ElemShapes>(),
     ]
 }
 
